@@ -101,7 +101,6 @@ func lenSymField(sym string, externs map[string]bool) (string, bool) {
 func (w *world) ruleRef(a *agg, stats *counters) {
 	P := w.c.P
 	tables := w.tables()
-	rg := newRanger(w)
 	if len(tables) < 3 {
 		w.c.R.Failf("vacuity: only %d dedup tracker fields (named map/slice types) found on Writer, expected ≥ 3", len(tables))
 	}
@@ -142,7 +141,6 @@ func (w *world) ruleRef(a *agg, stats *counters) {
 				}
 			}
 		}
-		var shapes []keyShape
 		pairTX := map[string]string{} // slice field name -> table field name
 		type pathFacts struct {
 			appends map[string]string // slice field -> pos
@@ -175,8 +173,6 @@ func (w *world) ruleRef(a *agg, stats *counters) {
 				}
 				pfs = append(pfs, pf)
 			}
-			w.collectKeyShapes(x, r, tables, &shapes)
-			w.checkEmittedIndices(a, rg, x, r, fname)
 			var caps []capture
 			add := func(av AV, rule, sink string, in ssa.Instruction) {
 				walkNums(st, av, 0, func(p Poly) {
@@ -372,7 +368,6 @@ func (w *world) ruleRef(a *agg, stats *counters) {
 				}
 			}
 		}
-		w.checkKeyShapes(a, rg, fname, shapes)
 		// DEDUP-1(d): an entry appended to a deduplicated slice is recorded in its table on the same path
 		for _, xf := range sortedKeys(pairTX) {
 			tab := pairTX[xf]
@@ -400,7 +395,6 @@ func (w *world) ruleRef(a *agg, stats *counters) {
 	w.dedupKeys(a, tables)
 	w.c.R.Floor("REF-1", 15)
 	w.c.R.Floor("DEDUP-1", 9)
-	w.c.R.Floor("DEDUP-2", 2)
 }
 
 func (w *world) readsLenOfWriterField(fn *ssa.Function) bool {
